@@ -17,13 +17,13 @@ META = dict(
     level_note="Trusted: Lean kernel; axioms propext, Classical.choice, Quot.sound; Go harness, driver parser. Modelled for the only workable "
                "schedule of this version (new chain at height 0, codec upgrade at 1, features from 2): legacy node encoding and skipped "
                "post-genesis parameters at InitGenesis follow from it. Account numbers, missed-block bit arrays, validator updates returned to "
-               "Tendermint and JSON encoding are not modelled. Pending claims are inserted through the keeper (claim transactions need served relays).",
+               "Tendermint and JSON encoding are not modelled. Exporting-node records are read from the raw store prefixes, not through the exporting getters.",
 )
 
 RULE = ("c43: histories of 3..27 blocks on the default modern chain (3 validators, 2 servicers, 3 applications, 5 accounts), flavours: quiet; "
         "shared mostly-valid generator (sends, node/app stake-edit-unstake, unjail, gov, DAO, missed votes, double-sign evidence); application "
-        "lifecycle (stake/edit/transfer/unstake/param changes) alone or mixed with it, with and without unstake messages; pending claims written "
-        "through the keeper; ExportAppState at the last height; a new process initialises a fresh node from the JSON. "
+        "lifecycle (stake/edit/transfer/unstake/param changes) alone or mixed with it, with and without unstake messages; real MsgClaim "
+        "transactions of the nodes for ended 4-block sessions plus three keeper-written claims of three different nodes in the last block; ExportAppState at the last height; a new process initialises a fresh node from the JSON. "
         "non-trivial = component non-empty at export; distinct = distinct trace line")
 
 
